@@ -56,7 +56,8 @@ func (r *coreRun) limitedLoad(name string, n int, viaMaxHistory bool) ([]int, er
 	if err != nil {
 		return nil, fmt.Errorf("open: %w", err)
 	}
-	mark("%s: replica %s Load(%d) maxHistory=%v on a log of %d entries", r.bid, name, n, viaMaxHistory, len(r.c.listing(name)))
+	full := r.c.listing(name)
+	mark("%s: replica %s Load(%d) maxHistory=%v on a log of %d entries", r.bid, name, n, viaMaxHistory, len(full))
 	ctx, cancel := context.WithTimeout(context.Background(), 10*time.Second)
 	defer cancel()
 	if err := ref.S.Load(ctx, amount); err != nil {
@@ -82,6 +83,32 @@ func (r *coreRun) limitedLoad(name string, n int, viaMaxHistory bool) ([]int, er
 		}
 		if !eqInts(l, out) {
 			return nil, fmt.Errorf("List(-1) %v differs from the log listing %v after a limited load", l, out)
+		}
+		// the same instance writes once more and loads with the same limit again: the window moves with the log
+		if n > 0 && !viaMaxHistory && len(out) > 0 {
+			op, err := ref.S.(orbitdb.EventLogStore).Add(ctx, []byte("after-limited-load"))
+			if err != nil {
+				return nil, fmt.Errorf("write after a limited load: %w", err)
+			}
+			if err := ref.S.Load(ctx, amount); err != nil {
+				return nil, fmt.Errorf("second load: %w", err)
+			}
+			ops, err := ref.S.(orbitdb.EventLogStore).List(ctx, &iface.StreamOptions{Amount: &all})
+			if err != nil {
+				return nil, fmt.Errorf("list: %w", err)
+			}
+			want := n
+			if len(full)+1 < want {
+				want = len(full) + 1
+			}
+			r.res.Stats["limited_reloads"]++
+			if len(ops) != want || !ops[len(ops)-1].GetEntry().GetHash().Equals(op.GetEntry().GetHash()) {
+				got := []string{}
+				for _, o := range ops {
+					got = append(got, string(o.GetValue()))
+				}
+				return nil, fmt.Errorf("after one more write and a second Load(%d) on the same instance the listing has %d entries (expected %d) and must end with the entry just written: %v", n, len(ops), want, got)
+			}
 		}
 	}
 	return out, nil
@@ -319,7 +346,15 @@ func (r *coreRun) snapshotOf(name string, what string, allowExtra []int) {
 		return
 	}
 	mark("%s: %s: LoadFromSnapshot of replica %s (%d entries)", r.bid, what, name, len(saved.listing))
-	if err := ref2.S.LoadFromSnapshot(ctx); err != nil {
+	loaded := make(chan error, 1)
+	go func() { loaded <- ref2.S.LoadFromSnapshot(ctx) }()
+	select {
+	case err = <-loaded:
+	case <-time.After(10 * time.Second):
+		r.violate("snapshot-silent", fmt.Sprintf("%s: SaveSnapshot of replica %s (%d entries) succeeded but LoadFromSnapshot on a fresh instance never returns", what, name, len(saved.listing)), nil, nil)
+		return
+	}
+	if err != nil {
 		r.violate("snapshot-silent", fmt.Sprintf("%s: SaveSnapshot of replica %s (%d entries) succeeded but the snapshot cannot be loaded: %v", what, name, len(saved.listing), err), nil, nil)
 		return
 	}
